@@ -121,6 +121,20 @@ class LocBuilder:
                     operands.append((k, v))
                     out += enc_operand(k, v)
             ops.append((name, code, off, operands))
+        if self.r.random() < 0.3:
+            # a branch: DW_OP_skip / DW_OP_bra carry a signed 2-byte displacement from the end of the operation to
+            # the start of another operation of the expression (libdw refuses targets that are not); what is stored
+            # -- and what `value` is to report -- is the displacement
+            i = self.r.randint(0, len(ops))
+            name, code = self.r.choice([("skip", 0x2f), ("bra", 0x28)])
+            at = ops[i][2] if i < len(ops) else len(out)
+            moved = [(n_, c_, o_ + 3, opr) for n_, c_, o_, opr in ops[i:]]
+            allops = ops[:i] + [(name, code, at, None)] + moved
+            tgt = self.r.choice(allops)[2]
+            disp = tgt - (at + 3)
+            allops[i] = (name, code, at, [("s2", disp)])
+            out = bytearray(out[:at]) + bytes([code]) + enc_operand("s2", disp) + out[at:]
+            ops = allops
         return bytes(out), ops
 
     def patch(self, expr, ops, type_off):
